@@ -569,96 +569,120 @@ def e1_equality_coverage(prog):
             continue
         f = fs[0]
         names = [x['name'] for x in adt['variants'][0]['fields']]
-        read = {1: set(), 2: set()}
-        bodies = [f] + f.closures()
-        for g in bodies:
-            for b, i, s in g.body.stmts():
-                if s['k'] == 'assign':
-                    for p in rv_operands(s['rv']):
-                        a = normalize_access(access_of_place(g.body, p))
-                        if g is f and a.root in (1, 2):
-                            fl = [st[1] for st in a.steps if isinstance(st, tuple) and st[0] == 'f']
-                            if fl:
-                                read[a.root].add(names[fl[0]] if fl[0] < len(names) else str(fl[0]))
-        r.inst('%s::eq reads self%s other%s' % (path, sorted(read[1]), sorted(read[2])))
-        # each field must take part in a *logical* comparison: PartialEq / Iterator::eq / ==, with operands that are
-        # the two fields themselves, possibly through order-preserving adaptors (no layout-dependent view such as
-        # VecDeque::as_slices)
-        ADAPT = ('deref', 'iter', 'into_iter', 'as_ref', 'borrow', 'as_slice', 'copied', 'cloned', 'by_ref')
-        body = f.body
+        E = pathsem.analyse(prog, f)
+        rets = [p for p in E.paths if p.ended == 'return']
+        if E.truncated or not rets:
+            r.viol('E1', path + '/not-analysable', f.loc(), 'path enumeration cut off')
+            continue
+        ops = {('p', 1, f.body.local_name(1) or ''): 1, ('p', 2, f.body.local_name(2) or ''): 2}
+        # order-preserving adaptors: the logical sequence / value of the field is what gets compared
+        ADAPT = ('deref', 'iter', 'into_iter', 'as_ref', 'borrow', 'as_slice', 'copied', 'cloned', 'by_ref', 'as_str', 'as_bytes', 'clone')
 
-        def field_of(op, depth=0):
-            l = op_local(op)
-            pl = op_place(op)
-            hops = 0
-            while hops < 12:
-                hops += 1
-                if pl is None:
+        def side_field(t):
+            """(operand, field name, name of a representation-dependent view in between or None)"""
+            via = None
+            for _ in range(16):
+                t = S_(t)
+                if not isinstance(t, tuple):
                     return None
-                a = normalize_access(access_of_place(body, pl))
-                fl = [st[1] for st in a.steps if isinstance(st, tuple) and st[0] == 'f']
-                if a.root in (1, 2) and fl:
-                    return (a.root, names[fl[0]] if fl[0] < len(names) else str(fl[0]), None)
-                d0 = single_def(body, a.root)
-                if d0 and d0[0] == 'call' and d0[2]['args']:
-                    nm = d0[2]['f'].get('name')
-                    if nm in ADAPT:
-                        pl = op_place(d0[2]['args'][0])
-                        continue
-                    # some other call: report which
-                    inner = op_place(d0[2]['args'][0])
-                    if inner is not None:
-                        a2 = normalize_access(access_of_place(body, inner))
-                        fl2 = [st[1] for st in a2.steps if isinstance(st, tuple) and st[0] == 'f']
-                        if a2.root in (1, 2) and fl2:
-                            return (a2.root, names[fl2[0]] if fl2[0] < len(names) else str(fl2[0]), nm)
-                return None
+                if t[0] == 'd':
+                    t = t[1]
+                elif t[0] == 'cast':
+                    t = t[2]
+                elif t[0] == 'it' and t[1] in ADAPT + ('rev',) and t[1] != 'rev':
+                    t = t[2]
+                elif t[0] == 'call' and t[2]:
+                    nm = t[1].rsplit('::', 1)[-1]
+                    if nm not in ADAPT:
+                        via = via or nm
+                    t = t[2][0]
+                elif t[0] == 'f':
+                    base = S_(t[1])
+                    while isinstance(base, tuple) and base[0] == 'd':
+                        base = S_(base[1])
+                    if base in ops:
+                        return (ops[base], names[t[2]] if t[2] < len(names) else str(t[2]), via)
+                    t = t[1]
+                else:
+                    return None
             return None
-        compared = {}
-        for b, t in body.calls(lambda c: (c.get('trait') in ('core::cmp::PartialEq', 'core::iter::Iterator') and c['name'] in ('eq', 'ne')) and len(c) > 0):
-            if len(t['args']) == 2:
-                x, y = field_of(t['args'][0]), field_of(t['args'][1])
-                if x and y and x[1] == y[1] and {x[0], y[0]} == {1, 2}:
-                    compared.setdefault(x[1], []).append(x[2] or y[2])
-        for b, i, s2 in body.stmts():
-            if s2['k'] == 'assign' and s2['rv']['k'] == 'binop' and s2['rv']['op'] in ('Eq', 'Ne'):
-                x, y = field_of(s2['rv']['a']), field_of(s2['rv']['b'])
-                if x and y and x[1] == y[1] and {x[0], y[0]} == {1, 2}:
-                    compared.setdefault(x[1], []).append(x[2] or y[2])
-        for fld in fields:
-            via = compared.get(fld)
-            if via and all(v is not None for v in via):
-                r.viol('E1', '%s/field-compared-through/%s/%s' % (path, fld, via[0]), f.loc(),
-                       'equality of %s compares `%s` only through %s(), a representation-dependent view: logically equal values (e.g. a clone) can compare unequal' % (path.split('::')[-1], fld, via[0]))
-        for fld in fields:
-            if fld == 'identifier' and path.endswith('Location'):
-                pass
-            for side in (1, 2):
-                if fld not in read[side]:
-                    r.viol('E1', '%s/field-not-compared/%s' % (path, fld), f.loc(),
-                           'equality of %s does not read `%s` of %s: worlds differing there compare equal' % (path.split('::')[-1], fld, 'self' if side == 1 else 'other'))
+
+        def comparison(a_, v):
+            """atom compares field X of both operands and was found equal -> (field, via)"""
+            if not isinstance(a_, tuple):
+                return None
+            if a_[0] == 'bin' and a_[1] in ('Eq', 'Ne'):
+                x, y, eqv = a_[2], a_[3], (v is True) == (a_[1] == 'Eq')
+            elif a_[0] == 'call' and a_[1].rsplit('::', 1)[-1] in ('eq', 'ne') and len(a_[2]) == 2:
+                x, y, eqv = a_[2][0], a_[2][1], (v is True) == (a_[1].rsplit('::', 1)[-1] == 'eq')
+            else:
+                return None
+            fx, fy = side_field(x), side_field(y)
+            if fx and fy and fx[1] == fy[1] and {fx[0], fy[0]} == {1, 2}:
+                return (fx[1], fx[2] or fy[2], eqv)
+            return None
+        S_ = pathsem.strip_refs
+        n_true = 0
+        reported = set()
+        for p in rets:
+            conds = list(p.conds)
+            verdict = p.ret
+            if verdict not in (pathsem.TRUE, pathsem.FALSE):
+                conds.append((verdict, True))        # `a == b` returned directly: the true case
+                verdict = pathsem.TRUE
+            cmps = [c for c in (comparison(a_, v) for a_, v in conds if isinstance(v, bool)) if c]
+            if verdict == pathsem.TRUE:
+                n_true += 1
+                for fld in fields:
+                    hits = [c for c in cmps if c[0] == fld and c[2]]
+                    if not hits and ('n', fld) not in reported:
+                        reported.add(('n', fld))
+                        r.viol('E1', '%s/field-not-compared/%s' % (path, fld), f.loc(),
+                               'equality of %s can return true without `%s` of self and other having been found equal: values differing there compare equal' % (path.split('::')[-1], fld))
+                    elif hits and all(c[1] is not None for c in hits) and ('v', fld) not in reported:
+                        reported.add(('v', fld))
+                        r.viol('E1', '%s/field-compared-through/%s/%s' % (path, fld, hits[0][1]), f.loc(),
+                               'equality of %s compares `%s` only through %s(), a representation-dependent view: logically equal values (e.g. a clone) can compare unequal' % (path.split('::')[-1], fld, hits[0][1]))
+            else:
+                if not any(not c[2] for c in cmps) and not any(isinstance(v, bool) and comparison(a_, not v) for a_, v in conds) and 'f' not in reported \
+                        and not any(isinstance(a_, tuple) and a_[0] == 'call' and v is False for a_, v in conds):
+                    reported.add('f')
+                    r.viol('E1', '%s/false-without-difference' % path, f.loc(), 'equality of %s returns false on a path where no compared field differed (not reflexive)' % path.split('::')[-1])
+        r.inst('%s::eq: %d paths, %d returning true' % (path, len(rets), n_true))
+        if not n_true and 't' not in reported:
+            r.viol('E1', '%s/never-true' % path, f.loc(), 'equality of %s never returns true' % path.split('::')[-1])
     # Archetype::component_eq
     fs = [f for f in prog.fns.values() if f.path == 'archetype::Archetype::<R>::component_eq']
     if len(fs) != 1:
         r.viol('E1', 'component_eq/missing', '-', 'Archetype::component_eq not found')
     else:
         f = fs[0]
-        body = f.body
         r.inst('Archetype::component_eq')
-        names = {1: set(), 2: set()}
-        for b, i, s in body.stmts():
-            if s['k'] == 'assign':
-                for p in rv_operands(s['rv']):
-                    nm = access_field_names(prog, body, normalize_access(access_of_place(body, p)))
-                    for side, nm0 in ((1, 'self'), (2, 'other')):
-                        if nm.startswith(nm0 + '.'):
-                            names[side].add(nm.split('.')[1])
-        for fld in ('length', 'entity_identifiers', 'components'):
-            for side in (1, 2):
-                if fld not in names[side]:
-                    r.viol('E1', 'component_eq/field-not-compared/%s' % fld, f.loc(), 'Archetype::component_eq does not read `%s` of %s' % (fld, 'self' if side == 1 else 'other'))
-        if not body.calls(lambda c: c['name'] == 'component_eq' and c.get('trait')):
-            r.viol('E1', 'component_eq/no-column-walk', f.loc(), 'component values are not compared (registry walk not called)')
+        adt = prog.adts['archetype::Archetype']
+        anames = [x['name'] for x in adt['variants'][0]['fields']]
+        E = pathsem.analyse(prog, f)
+        rets = [p for p in E.paths if p.ended == 'return']
+        ops = {1: ('p', 1, f.body.local_name(1) or ''), 2: ('p', 2, f.body.local_name(2) or '')}
+        rep = set()
+        if E.truncated or not rets:
+            r.viol('E1', 'component_eq/not-analysable', f.loc(), 'path enumeration cut off')
+        for p in rets:
+            conds = list(p.conds)
+            if p.ret == pathsem.FALSE:
+                continue
+            if p.ret != pathsem.TRUE:
+                conds.append((p.ret, True))
+            good = [a_ for a_, v in conds if v is True and isinstance(a_, tuple) and (a_[0] == 'call' or (a_[0] == 'bin' and a_[1] == 'Eq'))] + \
+                   [a_ for a_, v in conds if v is False and isinstance(a_, tuple) and a_[0] == 'bin' and a_[1] == 'Ne']
+            for fld in ('length', 'entity_identifiers', 'components'):
+                fi = anames.index(fld)
+                for side in (1, 2):
+                    if not any(pathsem.mentions(a_, lambda u: pathsem.is_field_of(u, 'archetype::Archetype', fi) and pathsem.mentions(u, lambda w: w == ops[side])) for a_ in good) and (fld, side) not in rep:
+                        rep.add((fld, side))
+                        r.viol('E1', 'component_eq/field-not-compared/%s' % fld, f.loc(), 'Archetype::component_eq can return true without a successful comparison involving `%s` of %s' % (fld, 'self' if side == 1 else 'other'))
+            if not any(a_[0] == 'call' and a_[1].endswith('::component_eq') for a_ in good) and 'walk' not in rep:
+                rep.add('walk')
+                r.viol('E1', 'component_eq/no-column-walk', f.loc(), 'component values are not compared (registry walk not called, or its verdict ignored)')
     return r
 
 
